@@ -46,6 +46,18 @@ def consumer_scenarios():
                     'alphabet': ['dA', 't', 't', 't'],
                 }
                 out.append((name, fe, tok, lat))
+    # legacy: the caller also asks for the raw packet
+    for tok in LEGACY_TOKENS:
+        for lat in (0, 5):
+            name = f'R|legacy|{tok}|{lat}'
+            c03.SCENARIOS[name] = {
+                'interests': [{'name': '/a', 'cbp': False, 'lifetime': 10, 'vlat': lat, 'verdict': tok, 'raw': True},
+                              {'name': '/a', 'cbp': True, 'lifetime': 10, 'vlat': 0, 'verdict': 'accept'}],
+                'packets': {'dA': {'data': '/a'}},
+                'prefix': ['x0', 'x1'],
+                'alphabet': ['dA', 't', 't', 't'],
+            }
+            out.append((name, 'legacy', tok, lat))
     # the caller awaits the result only some time after expressing (v2: the deadline counts from the expression)
     for tok in ('PASS', 'FAIL'):
         for lat, delay in ((8, 4), (5, 4), (12, 2), (3, 9)):
@@ -158,6 +170,10 @@ def producer_cases():
         for kind in ('plain', 'params', 'signed-digest', 'signed-hmac', 'siginfo-only'):
             for val in LEGACY_TOKENS:
                 yield {'fe': 'legacy', 'kind': kind, 'digest': 'ok', 'validator': val, 'vlat': 0, 'app_validator': when}
+    for fe, acc_tok in (('v2', 'PASS'), ('legacy', 'True')):
+        for kind in ('params', 'signed-digest'):
+            for mid in ('more-specific', 'more-specific-novalidator', 'replaced'):
+                yield {'fe': fe, 'kind': kind, 'digest': 'ok', 'validator': acc_tok, 'vlat': 5, 'mid': mid}
     yield {'fe': 'legacy', 'kind': 'signed-digest', 'digest': 'ok', 'validator': 'none', 'vlat': 0, 'break_sig': True}
     yield {'fe': 'v2', 'kind': 'signed-digest', 'digest': 'ok', 'validator': 'PASS', 'vlat': 0, 'break_sig': True}
 
@@ -232,6 +248,34 @@ def run_producer(case):
             except ValueError:
                 pass
         face.deliver(wire)
+        mid = case.get('mid')
+        if mid:
+            # while the (slow) validator is still deciding, the application changes its handler table: a handler the Interest
+            # was not validated for must not receive it
+            loop.drain()
+            rej = c03.verdict_value('FAIL' if fe == 'v2' else 'False', fe)
+            if fe == 'v2':
+                async def other(name, sig, ctx):
+                    log.append(('other-validator', loop.us))
+                    return rej
+                oh = lambda name, ap, reply, ctx: log.append(('other-handler', loop.us))  # noqa
+                if mid == 'more-specific':
+                    app.attach_handler('/p/x', oh, other)
+                elif mid == 'more-specific-novalidator':
+                    app.attach_handler('/p/x', oh, None)
+                else:
+                    app.detach_handler('/p')
+                    app.attach_handler('/p', oh, other)
+            else:
+                async def other(name, sig):
+                    log.append(('other-validator', loop.us))
+                    return rej
+                oh = lambda name, param, ap: log.append(('other-handler', loop.us))  # noqa
+                if mid.startswith('more-specific'):
+                    app.set_interest_filter('/p/x', oh, other if mid == 'more-specific' else None)
+                else:
+                    app.unset_interest_filter('/p')
+                    app.set_interest_filter('/p', oh, other)
         loop.settle()
         failures = loop.task_failures()
         app.shutdown()
@@ -268,7 +312,14 @@ def run_producer(case):
         why = 'reached the handler' if called else 'was dropped'
         viol.append((f"C05|producer|{fe}|{case['kind']}|digest={case['digest']}|validator={'none' if tok == 'none' else ('accepting' if c03.verdict_accepts(tok, fe) else 'rejecting')}|{'delivered' if called else 'dropped'}",
                      f'{tag}: Interest {why}; expected handler called = {exp_called}'))
-    if 'other-validator' in kinds or 'other-handler' in kinds:
+    if case.get('mid'):
+        # the handler table changed during validation: only the clause about the unvalidated handler is claimed
+        viol = [v for v in viol if 'handler-called-twice' in v[0]]
+        if 'other-handler' in kinds:
+            viol.append((f"C05|producer|{fe}|handler-attached-during-validation-received-interest|{case['mid']}",
+                         f'{tag}: a handler attached while the validator was deciding received the Interest although its own validator '
+                         f'(rejecting / absent) never accepted it: {kinds}'))
+    elif 'other-validator' in kinds or 'other-handler' in kinds:
         viol.append((f'C05|producer|{fe}|refused-attach-took-effect', f'{tag}: the validator / handler of a refused second attach was used: {kinds}'))
     if plain and consulted:
         viol.append((f'C05|producer|{fe}|plain-consulted-validator', f'{tag}: validator consulted for a plain Interest'))
